@@ -19,6 +19,11 @@
 package main
 
 import (
+	"fmt"
+
+	utilfeature "k8s.io/apiserver/pkg/util/feature"
+
+	"volcano.sh/volcano/pkg/features"
 	"volcano.sh/volcano/pkg/scheduler/actions/enqueue"
 	"volcano.sh/volcano/pkg/scheduler/api"
 	"volcano.sh/volcano/pkg/scheduler/conf"
@@ -60,7 +65,17 @@ func phaseKey(p string) int64 {
 }
 
 func runEnqueueCase(in []int64) []int64 {
-	kind, qs, js := decEnqueue(in)
+	kindTok, qs, js := decEnqueue(in)
+	// kind + 10: the gate-reserved family: feature gate SchedulingGatesQueueAdmission on, every pending
+	// pod without a scheduling gate carries the queue-allocation-gate annotation (it opted in, its gate
+	// was removed in an earlier cycle), so it sits in the capacity plugin's reserved cache at session open
+	kind, gateFamily := kindTok%10, kindTok >= 10
+	if gateFamily {
+		if err := utilfeature.DefaultMutableFeatureGate.Set(fmt.Sprintf("%s=true", features.SchedulingGatesQueueAdmission)); err != nil {
+			panic(err)
+		}
+		defer utilfeature.DefaultMutableFeatureGate.Set(fmt.Sprintf("%s=false", features.SchedulingGatesQueueAdmission))
+	}
 	s := VSpec{Kind: kind, HasRoot: kind == kHier,
 		Nodes: []sched.NodeSpec{{ID: 1, Has: true, CPU: 64000, Mem: 64 << 30, Pods: 500, GPU: 16}}}
 	for _, q := range qs {
@@ -74,7 +89,8 @@ func runEnqueueCase(in []int64) []int64 {
 	tid := int64(0)
 	for _, j := range js {
 		s.Jobs = append(s.Jobs, VJob{ID: j.ID, Queue: j.Queue, MinMember: j.MinMember, Phase: j.Phase, HasMin: j.HasMin != 0,
-			Min: RL{Mask: j.Mask & 7, CPU: j.CPU, Mem: j.Mem * mib, GPU: j.GPU}})
+			// mask bit 3: minResources also list `pods` (= minMember)
+			Min: RL{Mask: j.Mask & 15, CPU: j.CPU, Mem: j.Mem * mib, GPU: j.GPU, Pods: j.MinMember}})
 		for i := int64(0); i < j.NT; i++ {
 			tid++
 			st := int64(sched.SPending)
@@ -83,7 +99,8 @@ func runEnqueueCase(in []int64) []int64 {
 			}
 			// the LAST `gated` pending pods of the job carry a scheduling gate
 			gated := st == sched.SPending && i >= j.NT-j.Gated
-			s.Tasks = append(s.Tasks, VTask{ID: tid, Job: j.ID, CPU: j.TCPU, Mem: j.TMem * mib, GPU: j.TGPU, Status: st, Gated: gated})
+			s.Tasks = append(s.Tasks, VTask{ID: tid, Job: j.ID, CPU: j.TCPU, Mem: j.TMem * mib, GPU: j.TGPU, Status: st, Gated: gated,
+				Annot: gateFamily && st == sched.SPending && !gated})
 		}
 	}
 	w := openVotes(s)
@@ -114,7 +131,7 @@ func runEnqueueCase(in []int64) []int64 {
 	act.Execute(w.ssn)
 	act.UnInitialize()
 
-	out := []int64{kind, int64(len(qs))}
+	out := []int64{kindTok, int64(len(qs))}
 	for _, q := range qs {
 		out = append(out, q.ID, q.Parent, q.Open, q.Mask, q.CPU, q.Mem, q.GPU)
 	}
@@ -127,7 +144,7 @@ func runEnqueueCase(in []int64) []int64 {
 		}
 		g := max(min(j.Gated, j.NT-min(j.Running, j.NT)), 0)
 		out = append(out, j.ID, j.Queue, j.Phase, after, j.HasMin, j.Mask, j.CPU, j.Mem, j.GPU, j.MinMember, an, a0, a1, a2, votes[j.ID],
-			g*j.TCPU, g*j.TMem, g*j.TGPU, avotes[j.ID])
+			g*j.TCPU, g*j.TMem, g*j.TGPU, avotes[j.ID], j.TCPU, j.TMem, j.TGPU)
 	}
 	return out
 }
@@ -232,7 +249,40 @@ func genEnqueueCase(r *vh.Rng) []int64 {
 		}
 		js = append(js, j)
 	}
+	// an admitted PodGroup whose minResources list scalars (gpu, pods) that its allocated pods lack
+	if r.Chance(1, 4) {
+		q := vh.Pick(r, leaves)
+		for i := range qs {
+			if qs[i].ID == q {
+				qs[i].Mask |= 4
+				qs[i].GPU = int64(r.Range(1, 3))
+			}
+		}
+		nt := int64(r.Range(1, 3))
+		js = append(js, eqJob{ID: int64(len(js) + 1), Queue: q, Phase: vh.Pick(r, []int64{2, 3}), HasMin: 1, Mask: vh.Pick(r, []int64{13, 15, 5, 12}),
+			CPU: nt * 1000, Mem: nt * 512, GPU: int64(r.Range(1, 3)), MinMember: nt, NT: nt + int64(r.Range(0, 1)), TCPU: 1000, TMem: 512, Running: nt})
+		js = append(js, eqJob{ID: int64(len(js) + 1), Queue: q, Phase: 1, HasMin: 1, Mask: 5, CPU: 1000, GPU: int64(r.Range(1, 2)), MinMember: 1})
+	}
+	if r.Chance(1, 5) {
+		kind += 10 // the gate-reserved family
+	}
 	return encEnqueue(kind, qs, js)
+}
+
+// the shape of seeded C03-r9-1: capability gpu 2; an admitted PodGroup with minResources {cpu 1, gpu 2,
+// pods 1} whose only allocated pod is cpu-only; a Pending PodGroup asking gpu 1
+func enqueueScalarWitness(kind int64) []int64 {
+	return encEnqueue(kind, []eqQueue{{ID: 1, Open: 1, Mask: 5, CPU: 8000, GPU: 2}},
+		[]eqJob{{ID: 1, Queue: 1, Phase: 2, HasMin: 1, Mask: 13, CPU: 1000, GPU: 2, MinMember: 1, NT: 1, TCPU: 1000, TMem: 1, Running: 1},
+			{ID: 2, Queue: 1, Phase: 1, HasMin: 1, Mask: 5, CPU: 1000, GPU: 1, MinMember: 1}})
+}
+
+// the shape of seeded C03-r9-2: gate on; capability cpu 2 used by a running pod; a Pending 1-cpu pod
+// that opted in and whose gate was removed earlier (gate-reserved cache): Allocatable must be false
+func enqueueGateReservedWitness() []int64 {
+	return encEnqueue(10+kFlat, []eqQueue{{ID: 1, Open: 1, Mask: 1, CPU: 2000}},
+		[]eqJob{{ID: 1, Queue: 1, Phase: 3, MinMember: 1, NT: 1, TCPU: 2000, TMem: 1, Running: 1},
+			{ID: 2, Queue: 1, Phase: 2, MinMember: 1, NT: 1, TCPU: 1000, TMem: 1}})
 }
 
 // the shape of seeded mutant C03-2: capability 4 cpu, a PodGroup already Inqueue with
